@@ -4369,6 +4369,11 @@ async fn handle_connected_state(
                                                     DisconnectReason::DtlsClosed
                                                 };
                                                 if let Some(inner) = inner_weak.upgrade() {
+                                                    // A locally closed connection also closes its
+                                                    // DTLS transport; Closed must stay Closed.
+                                                    if *inner.peer_state.borrow() == PeerConnectionState::Closed {
+                                                        return false;
+                                                    }
                                                     let _ = inner.disconnect_reason.send_if_modified(|cur| {
                                                         if cur.is_none() { *cur = Some(reason); true } else { false }
                                                     });
